@@ -20,32 +20,18 @@ structure SInv (s : Slab) (live : List Nat) : Prop where
   frag_disj : s.frags.Pairwise fragDisj
 
 theorem mem_slabObjs {area fs n o : Nat} : o ∈ slabObjs area fs n ↔ ∃ i, i < n ∧ o = area + i * fs := by
-  induction n with
-  | zero => simp [slabObjs]
-  | succ k ih =>
-    simp only [slabObjs, List.mem_append, ih, List.mem_singleton]
-    constructor
-    · rintro (⟨i, hi, rfl⟩ | rfl)
-      · exact ⟨i, by omega, rfl⟩
-      · exact ⟨k, by omega, rfl⟩
-    · rintro ⟨i, hi, rfl⟩
-      by_cases h : i = k
-      · right; rw [h]
-      · left; exact ⟨i, by omega, rfl⟩
+  simp only [slabObjs, List.mem_map, List.mem_range]
+  constructor
+  · rintro ⟨i, hi, rfl⟩; exact ⟨i, hi, rfl⟩
+  · rintro ⟨i, hi, rfl⟩; exact ⟨i, hi, rfl⟩
 
 theorem slabObjs_nodup (area fs n : Nat) (hfs : 0 < fs) : (slabObjs area fs n).Nodup := by
-  induction n with
-  | zero => simp [slabObjs]
-  | succ k ih =>
-    simp only [slabObjs]
-    refine List.nodup_append.mpr ⟨ih, by simp, ?_⟩
-    intro a ha b hb
-    simp only [List.mem_singleton] at hb
-    subst hb
-    obtain ⟨i, hi, rfl⟩ := mem_slabObjs.mp ha
-    intro heq
-    have : i * fs < k * fs := Nat.mul_lt_mul_of_pos_right hi hfs
-    omega
+  unfold slabObjs
+  refine List.pairwise_map.mpr (List.Pairwise.imp ?_ (List.nodup_range (n := n)))
+  intro i j hne heq
+  apply hne
+  have : i * fs = j * fs := by omega
+  exact Nat.eq_of_mul_eq_mul_right hfs this
 
 /-- two slots: the same object or `final_size` bytes apart (same fragment) / in fragments that
     do not overlap -/
